@@ -22,12 +22,16 @@ def sh(cmd, cwd=None, env=None, timeout=7200):
     return p.returncode, p.stdout
 
 
+GITLOCK = threading.Lock()
+
+
 def setup(i):
     b = os.path.join(BASE, "w%d" % i)
-    sh(["git", "-C", REPO, "worktree", "remove", "--force", os.path.join(b, "repo")])
-    shutil.rmtree(b, ignore_errors=True)
-    os.makedirs(b)
-    rc, out = sh(["git", "-C", REPO, "worktree", "add", "-q", "--detach", os.path.join(b, "repo"), "HEAD"])
+    with GITLOCK:  # concurrent `git worktree add` calls trip over each other's administrative files
+        sh(["git", "-C", REPO, "worktree", "remove", "--force", os.path.join(b, "repo")])
+        shutil.rmtree(b, ignore_errors=True)
+        os.makedirs(b)
+        rc, out = sh(["git", "-C", REPO, "worktree", "add", "-q", "--detach", os.path.join(b, "repo"), "HEAD"])
     assert rc == 0, out
     v = os.path.join(b, "verif")
     os.makedirs(v)
